@@ -66,7 +66,7 @@ def run(F, R):
         for (a, b) in pos[:1]:
             bv = S.nodes[a].ctx.bv
             si = guards.switch_info(bv, S.nodes[a].bi)
-            R.check("C05-R2", "decision-origin", "update_check_allowed" in fmt_t(si.term), "decision <- update_check_allowed(..).await",
+            R.check("C05-R2", "decision-origin", (lib.head_call(si.term) or "").endswith("update_check_allowed"), "decision <- update_check_allowed(..).await on every path",
                     "the tested decision is not the result of update_check_allowed: " + fmt_t(si.term)[:120], S.nodes[a].loc())
         seen_neg = set()
         for (a, b, nm) in neg:
@@ -141,7 +141,8 @@ def run(F, R):
             # decision origin
             for (a, b) in okE[:1]:
                 si = guards.switch_info(SS.nodes[a].ctx.bv, SS.nodes[a].bi)
-                R.check("C05-R4", "decision-origin", "update_can_start" in fmt_t(si.term), "decision <- update_can_start(plan).await", "tested install decision is not the result of update_can_start", SS.nodes[a].loc())
+                R.check("C05-R4", "decision-origin", (lib.head_call(si.term) or "").endswith("update_can_start"), "decision <- update_can_start(plan).await on every path",
+                        "the tested install decision is not on every path the result of update_can_start: " + fmt_t(si.term)[:160], SS.nodes[a].loc())
 
     # ---------------------------------------------------------------- R5 reboot gate
     R.rule("C05-R5", "perform_reboot only under RebootAfterUpdate::Needed, which is built only on the true edge of reboot_needed and never after an installation error; the most recent reboot_allowed answer before perform_reboot was true")
@@ -166,6 +167,7 @@ def run(F, R):
             bad = (set(sites) | set(sm.env(Sc, "Policy", "reboot_needed"))) & after
             R.check("C05-R5", "no-reboot-after-install-error", not bad, "after an installation error neither reboot_needed is asked nor Needed built",
                     "after an installation error the flow still reaches %s" % [Sc.nodes[x].loc() for x in bad])
+        _errors_gate(R, sm, Sc, sites)
         ra = sm.env(S, "Policy", "reboot_allowed")
         ra_e = sm.bool_edges(S, lambda n, t: "reboot_allowed" in fmt_t(t))
         ra_false = [(a, b) for (a, b, tr) in ra_e if not tr]
@@ -180,6 +182,82 @@ def run(F, R):
             wctx = S.nodes[pr[0]].ctx
             r4 = reach_in(S, [wctx.entry], wctx, cut_edges=ra_true)
             R.check("C05-R5", "some-answer-yes", not (set(pr) & r4), "perform_reboot requires reboot_allowed() == true", "perform_reboot reachable with no positive reboot_allowed answer")
+
+
+def _unref(t):
+    while t[0] in ("ref", "deref"):
+        t = t[1]
+    return t
+
+
+def _errors_gate(R, sm, Sc, needed_sites):
+    """An installation error is *any* per-app result `Failed`: the Failed arm of the result-building closure always pushes
+    its payload into one vector, and reboot_needed / Needed(_) lie behind the `is_empty() == true` edge of that same vector."""
+    c = sm.c
+    AIR = "installer::AppInstallResult"
+    found = []
+    for bid in sorted(set(cx.bv.id for cx in Sc.ctxs)):
+        bv = sm.w.bv(bid)
+        for bi, t in bv.calls():
+            if not (lib.callee_is(t, "std::iter::Iterator::collect") and "update_check::AppResponse" in c.types[t["destt"]]["s"]):
+                continue
+            x = bv.trace_op(t["args"][0])
+            while x[0] == "call":
+                if x[1].endswith("Iterator::map") and len(x[2]) > 1:
+                    for y in walk(x[2][1]):
+                        if y[0] == "agg" and y[1] == "closure":
+                            cb = sm.w.bv(y[2])
+                            for b2, t2 in cb.calls():
+                                if lib.norm(t2["callee"]).endswith("::push") and "Vec" in t2["callee"]:
+                                    found.append((bv, y, cb, b2, t2))
+                x = _unref(x[2][0]) if x[2] else ("undef",)
+    if not R.floor("C05-R5", "error-collecting pushes in result-building closures", len(found), 1):
+        return
+    for (bv, clo, cb, pb, pt) in found:
+        dst = lib.apath(cb.trace_op(pt["args"][0]))
+        val = _unref(cb.trace_op(pt["args"][1]))
+        is_failed_payload = val[0] == "field" and val[1][0] == "downcast" and val[1][2] == "Failed"
+        R.check("C05-R5", "errors-collects-failed-payload", is_failed_payload and dst.startswith("param1."), "errors.push(<payload of AppInstallResult::Failed>)",
+                "the value pushed in the result-building closure is not the Failed payload: %s <- %s" % (dst, fmt_t(val)[:120]), lib.loc(cb, pb))
+        if not (is_failed_payload and dst.startswith("param1.")):
+            continue
+        # every Failed arm passes through the push
+        n_sw = 0
+        for b in sorted(cb.reach0):
+            si = guards.switch_info(cb, b)
+            if not (si and si.kind == "discr" and si.ty.get("d") == AIR):
+                continue
+            for tgt in cb.succ[b]:
+                if "Failed" not in si.edge_names(cb, tgt):
+                    continue
+                n_sw += 1
+                rets = [r for r in cb.reach_from([tgt], avoid=[pb]) if cb.blocks[r]["t"]["k"] == "return"]
+                R.check("C05-R5", "failed-arm-always-collected", not rets and len(si.edge_names(cb, tgt)) == 1, "every AppInstallResult::Failed result is pushed into the error vector",
+                        "a Failed install result can leave the closure without being recorded as an installation error", lib.loc(cb, b))
+        R.floor("C05-R5", "matches on AppInstallResult in the result-building closure", n_sw, 1)
+        try:
+            k = int(dst.split(".")[1])
+            vec = _unref(clo[3][k])
+        except (ValueError, IndexError):
+            R.inconclusive("C05-R5", "errors-gate", "cannot identify the captured error vector (%s)" % dst)
+            continue
+
+        def is_gate(n, t):
+            t = _unref(t)
+            return t[0] == "call" and lib.norm(t[1]).endswith("::is_empty") and t[2] and _unref(t[2][0]) == vec
+
+        es = sm.bool_edges(Sc, is_gate)
+        empty_true = [(a, b) for (a, b, tr) in es if tr]
+        if not empty_true:
+            # some other test of the vector (len() == 0, first(), ..) is a spelling this rule does not know: no verdict
+            other = sm.bool_edges(Sc, lambda n, t: any(_unref(y) == vec for y in walk(t)))
+            if other:
+                R.inconclusive("C05-R5", "errors-gate", "the error vector is tested, but not through is_empty(): %s" % Sc.nodes[other[0][0]].loc())
+                continue
+        r_ = reach(Sc, [Sc.root.entry], cut_edges=empty_true)
+        bad = (set(needed_sites) | set(sm.env(Sc, "Policy", "reboot_needed"))) & r_
+        R.check("C05-R5", "errors-gate", not bad, "reboot_needed and Needed(_) lie behind `errors.is_empty() == true` on the vector that collects every Failed payload",
+                "reboot_needed / Needed(_) reachable without the collected installer errors being empty: %s" % [Sc.nodes[x].loc() for x in sorted(bad)])
 
 
 def _builder_field_flow(R, c):
